@@ -847,6 +847,32 @@ func (ev *evaluator) callExpr(n *ast.CallExpr) *Val {
 		if sf := ev.lookupSpec(id.Name); sf != nil {
 			return ev.applySpec(sf, n.Args)
 		}
+		// lemma instance: (requires => ensures) of a lemma of this package at the given arguments
+		if pkg := ev.pkgOf(); pkg != nil {
+			if lc, ok := ev.x.prog.contracts.byKey[pkg.Path()+".lemma:"+id.Name]; ok && lc.Lemma {
+				if len(n.Args) != len(lc.Params) {
+					ev.errorf("lemma %s: wrong number of arguments", id.Name)
+				}
+				sub := &evaluator{x: ev.x, fr: ev.fr, st: ev.st, over: ev.over, lets: map[string]*Val{}, lazy: map[string]ast.Expr{}, blk: ev.blk}
+				for i, prm := range lc.Params {
+					sub.lets[prm.Name] = ev.ev(n.Args[i])
+				}
+				var reqs, enss []*Term
+				for _, cl := range lc.Clauses {
+					switch cl.Kind {
+					case "let":
+						delete(sub.lets, cl.Name)
+						sub.lazy[cl.Name] = cl.Expr
+					case "requires":
+						reqs = append(reqs, sub.eval(cl.Expr).T)
+					case "ensures":
+						enss = append(enss, sub.eval(cl.Expr).T)
+					}
+				}
+				ev.x.trusted["LEMMA used as hypothesis (proved separately): "+lc.Key] = true
+				return &Val{T: Implies(And(reqs...), And(enss...)), Typ: boolT}
+			}
+		}
 		// let-bound or package function
 		if _, isLet := ev.lets[id.Name]; !isLet {
 			if pkg := ev.pkgOf(); pkg != nil {
